@@ -303,11 +303,13 @@ struct GapOp {
     bool is_put;
     std::string key;
 };
-static std::string gap_case(const std::string& tree, bool r2l, bool early, int gap, const GapOp& w) {
-    return "gap;" + tree + ";" + (r2l ? "1" : "0") + ";" + (early ? "1" : "0") + ";" + std::to_string(gap) + ";" + (w.is_put ? "P" : "R") + ";" + hexs(w.key);
+static std::string gap_case(const std::string& tree, bool r2l, bool early, int gap, const std::vector<GapOp>& ws) {
+    std::string s = "gap;" + tree + ";" + (r2l ? "1" : "0") + ";" + (early ? "1" : "0") + ";" + std::to_string(gap);
+    for (auto& w : ws) s += std::string(";") + (w.is_put ? "P" : "R") + ";" + hexs(w.key);
+    return s;
 }
 // returns "" or "symptom|detail"
-static std::string check_gap(const TreeSpec& t, bool r2l, bool early, int gap, const GapOp& w, bool& applied) {
+static std::string check_gap(const TreeSpec& t, bool r2l, bool early, int gap, const std::vector<GapOp>& ws, bool& applied) {
     Built b = build(t);
     applied = false;
     std::string err;
@@ -329,13 +331,15 @@ static std::string check_gap(const TreeSpec& t, bool r2l, bool early, int gap, c
             }
             std::string last = produced.back();
             Model before = b.m;
-            if (w.is_put) {
-                std::string v = ykc::val_of(w.key, 2);
-                ykc::t_put(b.tk, b.ti, w.key, v);
-                b.m[w.key] = v;
-            } else {
-                ykc::t_remove(b.tk, b.ti, w.key);
-                b.m.erase(w.key);
+            for (auto& w : ws) {
+                if (w.is_put) {
+                    std::string v = ykc::val_of(w.key, 2);
+                    ykc::t_put(b.tk, b.ti, w.key, v);
+                    b.m[w.key] = v;
+                } else {
+                    ykc::t_remove(b.tk, b.ti, w.key);
+                    b.m.erase(w.key);
+                }
             }
             applied = true;
             bool top_changed = false;
@@ -357,8 +361,10 @@ static std::string check_gap(const TreeSpec& t, bool r2l, bool early, int gap, c
             }
             // every key present before and after the write, beyond the last produced key, must still come, in order
             std::vector<std::string> must;
+            std::set<std::string> touched;
+            for (auto& w : ws) touched.insert(w.key);
             for (auto& kv : before) {
-                if (b.m.count(kv.first) == 0) continue;
+                if (b.m.count(kv.first) == 0 || touched.count(kv.first) != 0) continue;
                 if (!r2l && kv.first > last) must.push_back(kv.first);
                 if (r2l && kv.first < last) must.push_back(kv.first);
             }
@@ -425,6 +431,7 @@ static void part_gap(const hm::Args& a, bool quick) {
         t.removes = sh->removes;
         std::set<std::string> present(sh->inserts.begin(), sh->inserts.end());
         for (auto& r : sh->removes) present.erase(r);
+        bool two_ops = !quick || present.size() <= 16;
         std::vector<GapOp> ops;
         std::set<std::string> putkeys;
         for (auto& kv : sh->pal) putkeys.insert(kv.second);
@@ -447,7 +454,20 @@ static void part_gap(const hm::Args& a, bool quick) {
         for (int r2l = 0; r2l < 2; ++r2l) {
             for (int early = 0; early < 2; ++early) {
                 for (int gap = 0; gap <= int(present.size()); ++gap) {
-                    for (auto& w : ops) {
+                    std::vector<std::vector<GapOp>> cases;
+                    for (auto& w : ops) cases.push_back({w});
+                    // two writer operations in one pause: a removal of a stored key followed or preceded by an insert
+                    if (two_ops) {
+                        for (auto& w1 : ops) {
+                            if (w1.is_put) continue;
+                            for (auto& w2 : ops) {
+                                if (!w2.is_put || w2.key == w1.key || present.count(w2.key) != 0) continue;
+                                cases.push_back({w1, w2});
+                                cases.push_back({w2, w1});
+                            }
+                        }
+                    }
+                    for (auto& w : cases) {
                         bool applied = false;
                         std::string e = check_gap(t, r2l != 0, early != 0, gap, w, applied);
                         rp.evaluations++;
@@ -466,7 +486,7 @@ static void part_gap(const hm::Args& a, bool quick) {
         }
         rp.states = long(ops.size());
         rp.transitions = rp.evaluations;
-        rp.samples.push_back(gap_case(t.name, false, true, 2, ops[ops.size() / 2]));
+        rp.samples.push_back(gap_case(t.name, false, true, 2, {ops[ops.size() / 2]}));
         rp.wall = ykmc::mono_now() - s0;
         // signature class carries the shape (known findings are per shape family)
         printf("{\"engine\":\"ykenum\",\"part\":\"%s\",\"scenario\":\"%s\",\"sigclass\":\"gap:%s\",\"states\":%ld,\"transitions\":%ld,\"evaluations\":%ld,"
@@ -506,7 +526,8 @@ int main(int argc, char** argv) {
             t.name = f[1];
             t.keys = sh->inserts;
             t.removes = sh->removes;
-            GapOp w{f[5] == "P", unhex(f[6])};
+            std::vector<GapOp> w;
+            for (size_t q = 5; q + 1 < f.size(); q += 2) w.push_back({f[q] == "P", unhex(f[q + 1])});
             bool applied = false;
             std::string e = check_gap(t, f[2] == "1", f[3] == "1", atoi(f[4].c_str()), w, applied);
             printf("{\"replay\":\"%s\",\"symptom\":\"%s\"}\n", hm::jesc(a.replay_scenario).c_str(), hm::jesc(e).c_str());
